@@ -835,6 +835,20 @@ def run(chk):
         language_part(chk, binp, "release", thorough, rows, prelude, arms, fails, dis)
         script_part(chk, binp, known, aliases, fails, dis)
         select_part(chk, binp, "release", thorough, rows, fails, dis)
+        # a feature record the selected language system does not list has no effect, not even through a shaper that asks
+        # whether the font "has" a feature (font pairs that differ in such a record only; Arabic shaper, calt / liga / rclt)
+        rc, out, err = C.run_rbv(binp, ["c18", "unlisted-probe"])
+        m = re.search(r"unlisted-probe cases=(\d+) bad=(\d+)", out)
+        if m:
+            chk.add_eval(int(m.group(1)), int(m.group(1)))
+            chk.note("unlisted_feature_probe", {"cases": int(m.group(1)), "bad": int(m.group(2))})
+        for line in out.splitlines():
+            if line.startswith("unlisted-probe differ"):
+                fails.append({"what": "features-taking-part-differ-from-the-selected-language-system", "probe": line,
+                              "language": line.split("lang=")[1].split()[0] if "lang=" in line else None,
+                              "note": "fonts that differ only in a feature record the selected language system does not list shape differently (rbv c18 unlisted-probe)"})
+        if not m:
+            broken.append("unlisted-probe produced no summary: " + err[-300:])
         ok2, binc, blog2 = C.cargo_build("checked", hooks=True)
         if ok2:
             language_part(chk, binc, "checked", False, rows, prelude, arms, fails, dis)
